@@ -10,7 +10,7 @@ from __future__ import annotations
 import os
 
 from .. import pkggen as pg
-from ..core import Check, Viol, drive, gated_features, generic_replay, rng_for
+from ..core import Check, Viol, drive, gated_features, generic_replay, rng_for, noise_opts
 from ..run import Case
 from ..stubs import StubSet
 
@@ -49,7 +49,7 @@ def gen(tier: str, seed: int) -> list[Case]:
             Case(
                 cid=f"c10-{i}",
                 files=pg.render(pkg),
-                opts=["-nc"] if i % 2 else [],
+                opts=(["-nc"] if i % 2 else []) + noise_opts(seed, PID, i),
                 out_spelling=spell[i % len(spell)],
                 src_spelling=spell[(i // 2) % len(spell)],
                 meta={"pkg": pkg},
